@@ -464,7 +464,10 @@ def run_server(env, scen, log=None):
             obs += enc_creds(mc) + [len(ws)]
             for p, wc, load in ws:
                 obs += enc_creds(wc) + ([1] + enc_creds(load) if load is not None else [0])
-        steps.append((list(mevents), obs, desc))
+        lost = state.get("config_lost")
+        if not lost:
+            steps.append((list(mevents), obs, desc))
+        nf = len(fails)
         # ---- the property on this snapshot ----
         if not ok:
             state["ok"] = False
@@ -482,6 +485,11 @@ def run_server(env, scen, log=None):
                 if load is not None:
                     fails.extend(judge_creds(db, m0, c.get("user"), c.get("group"), c.get("ig"), load,
                                              "after %s: application code at load time" % desc))
+        if lost:
+            # KNOWN_FINDINGS implicit-config-lost-on-upgrade (D31): the re-executed master was started in the `chdir`
+            # directory and never saw ./gunicorn.conf.py - what it and its workers do is attributed to that finding
+            fails[nf:] = [(w, "implicit-config-lost-on-upgrade") for (w, _) in fails[nf:]]
+            state["ok"] = True
         return snap
 
     try:
@@ -537,6 +545,8 @@ def run_server(env, scen, log=None):
                             time.sleep(0.1)
                         if len(srv.masters) > n_before:
                             mconf[srv.masters[-1]] = dict(fileconf)
+                        if scen["conf"].get("via") == "cwdfile":
+                            state["config_lost"] = True
                     else:
                         time.sleep(0.5)
                 elif kind == "ttin":
@@ -561,7 +571,7 @@ def run_server(env, scen, log=None):
                     raise ValueError(kind)
             observe(desc)
         # ---- what the worker needs after the drop ----
-        snap = srv.snapshot() if state["ok"] else []
+        snap = srv.snapshot() if state["ok"] and not state.get("config_lost") else []
         if snap:
             before = sorted(p for _, _, ws in snap for p, _, _ in ws)
             docs = srv.request(10)
@@ -642,6 +652,18 @@ QUICK_SCENARIO5 = {
 }
 
 
+# the same implicit ./gunicorn.conf.py + `chdir`, then USR2: Arbiter.__init__ takes START_CTX['cwd'] AFTER the application has
+# changed directory, reexec() starts the new master there, and that one finds no gunicorn.conf.py: its workers run with the
+# default identity (the master's) and the default count.  KNOWN_FINDINGS implicit-config-lost-on-upgrade (D31); random
+# scenarios therefore do not combine cwdfile with USR2
+KNOWN_SCENARIO_D31 = {
+    "conf": {"user": ["str", "nobody"], "group": ["str", "nogroup"], "ig": False, "umask": 0o22, "workers": 2,
+             "worker_class": "sync", "timeout": 2, "via": "cwdfile"},
+    "fake": False, "mgroups": [],
+    "events": [["kill", 0], ["usr2", 0]],
+}
+
+
 def thorough_scenarios(rng, env, rounds=1):
     out = []
     for _ in range(rounds):
@@ -678,7 +700,7 @@ def thorough_scenarios1(rng, env):
                 # exit (reload() -> Pidfile.create finds the parent's pid file: RuntimeError) - not a C20 matter
                 # (an identity given on the command line / in the environment is not changed by editing the file)
                 evs.append(["hup", 0, rng.choice([None, {"user": alt["user"], "group": alt["group"], "ig": alt["ig"]}]) if via in ("file", "cwdfile") else None])
-            elif x < 0.65 and not usr2_done:
+            elif x < 0.65 and not usr2_done and via != "cwdfile":
                 evs.append(["usr2", 0])
                 usr2_done = True
             elif x < 0.8:
@@ -804,7 +826,7 @@ def run(ctx):
             ctx.sample(describe(c))
         report_fails(ctx, fails)
         # level 4
-        base = [QUICK_SCENARIO, QUICK_SCENARIO2, QUICK_SCENARIO3, QUICK_SCENARIO4, QUICK_SCENARIO5]
+        base = [QUICK_SCENARIO, QUICK_SCENARIO2, QUICK_SCENARIO3, QUICK_SCENARIO4, QUICK_SCENARIO5, KNOWN_SCENARIO_D31]
         scens = base if quick else base + thorough_scenarios(ctx.rng, env, 4)
         hist_cases = []
         for scen in scens:
